@@ -104,6 +104,57 @@ pub fn run(ctx: &Ctx) {
     let rep = &ctx.rep;
     let n = ctx.opt_u64("cases", if ctx.thorough { 600 } else { 40 });
     let cap = ctx.opt_u64("cap", if ctx.thorough { 4 << 20 } else { 1 << 20 }) as usize;
+    // forked relatives create regions at the same time (done first, while this driver has spawned
+    // nothing yet): a forked child shares the parent's pid cache and region counter, so whatever
+    // makes region names unique must still tell the two apart. The interposer keeps every new
+    // name linked 300 us longer, which is the window in which a second creator would collide.
+    if is_os() && ctx.only_case.is_none() {
+        drop(IpcSharedMemory::from_bytes(&[1, 2, 3]));
+        if let Some(m) = mon() {
+            m.set_shm_widen(300);
+        }
+        let per = 30u64;
+        let create = |who: u64| -> usize {
+            let mut bad = 0;
+            for j in 0..per {
+                let id = 0xc05f_0000 + who * 1000 + j;
+                let len = [1usize, 4096, 5000][(j % 3) as usize];
+                let g = IpcSharedMemory::from_bytes(&body(id, len));
+                if &g[..] != &body(id, len)[..] {
+                    bad += 1;
+                }
+            }
+            bad
+        };
+        let mut pids = Vec::new();
+        for c in 0..2u64 {
+            let pid = unsafe { libc::fork() };
+            if pid == 0 {
+                let r = std::panic::catch_unwind(|| create(c + 1));
+                unsafe { libc::_exit(match r { Ok(0) => 0, Ok(_) => 42, Err(_) => 43 }) };
+            }
+            pids.push(pid);
+        }
+        let mine = std::panic::catch_unwind(|| create(0));
+        if let Some(m) = mon() {
+            m.set_shm_widen(0);
+        }
+        let mut outcomes = Vec::new();
+        for pid in pids {
+            let mut st = 0;
+            unsafe { libc::waitpid(pid, &mut st, 0) };
+            outcomes.push(if libc::WIFEXITED(st) { libc::WEXITSTATUS(st) } else { -libc::WTERMSIG(st) });
+        }
+        rep.stat("forked_creator_rounds", 1);
+        rep.stat("regions_created_by_forked_relatives", (3 * per) as i64);
+        let parent = match &mine { Ok(0) => "ok", Ok(_) => "contents-differ", Err(_) => "panicked" };
+        if parent != "ok" || outcomes.iter().any(|o| *o != 0) {
+            let p = take_panics();
+            rep.violation("C05:region-creation-fails-among-forked-relatives",
+                json!({"parent": parent, "children_exit": outcomes, "meaning": "0 ok, 42 contents differ, 43 panicked, negative = signal",
+                    "panic": p.last().cloned().unwrap_or_default()}), ctx.replay(0));
+        }
+    }
     // exec'd reader (OS transports only)
     let mut reader = None;
     let mut forked_reader: Option<i32> = None;
